@@ -589,6 +589,15 @@ fn judge(p: &Prog, comp: Option<&Comp>, rt_eval: bool) -> Judged {
             io.k
         );
     }
+    out.sample = Some(json!({
+        "program": to_json(&p.instrs),
+        "witness": p.witness.iter().map(|(n, v)| format!("{n}={}", val_str(v))).collect::<Vec<_>>(),
+        "reference": format!("{:?}", p.expect),
+        "off_circuit": off.text().chars().take(300).collect::<String>(),
+        "in_circuit": inc.text().chars().take(300).collect::<String>(),
+        "k": io.k,
+        "exposed_len": io.exposed.len(),
+    }));
     let ill = matches!(p.expect, Expect::IllTyped | Expect::IllFormed);
     let tag = if ill { "ill" } else { "valid" };
     out.eval(&format!("{tag}:off={}:in={}", off.name(), inc.name()), true);
@@ -749,6 +758,12 @@ fn compile_case(p: &Prog) -> (CaseOut, Option<Comp>) {
         return (out, None);
     };
     let comp = compile(&rel);
+    out.sample = Some(json!({
+        "program": to_json(&p.instrs),
+        "dummy_synthesize_run": format!("{:?}", comp.synth).chars().take(200).collect::<String>(),
+        "min_k": format!("{:?}", comp.k).chars().take(120).collect::<String>(),
+        "from_relation_min_k": format!("{:?}", comp.from_relation).chars().take(200).collect::<String>(),
+    }));
     let ill = matches!(p.expect, Expect::IllTyped | Expect::IllFormed);
     match &comp.synth {
         Ok(Ok(())) => out.eval("compile:ok", true),
